@@ -27,7 +27,7 @@ VERSION = 1
 BUDGET = {'quick': 50, 'thorough': 600}
 CHUNK = {'quick': 10, 'thorough': 20}
 RULE = ('one case = one seeded history (4-40 ops: store, bulk store, overwrite, remove, load, reopen, defrag with seeded '
-        'thresholds - also dry, or with one failing open()) on compact v1 or v2, sequential or split over 2-4 concurrently scheduled writers (processes with their own cache objects, or threads sharing one); about one case in 100 instead works on a bundle extended beyond 4 GiB (sparse file on tmpfs, outside SimFS) (incl. a contention form: 3-4 writers storing into one bundle, retry timers firing while the holder still runs); '
+        'thresholds - also dry, or with one failing open()) on compact v1 or v2, sequential or split over 2-4 concurrently scheduled writers (processes with their own cache objects, or threads sharing one - which may also be switched between two statements of compact.py); about one case in 100 instead works on a bundle extended beyond 4 GiB (sparse file on tmpfs, outside SimFS) (incl. a contention form: 3-4 writers storing into one bundle, retry timers firing while the holder still runs); '
         'non-trivial = the history overwrote or removed a stored tile (fragmentation exists) and was parsed/defragmented '
         'afterwards, or (concurrent) two processes overlapped inside one bundle; distinct = distinct hash of '
         '(version, operations, schedule event log)')
@@ -205,6 +205,8 @@ def gen(t, tier):
         # let waiters' retry timers fire while the holder is still running (otherwise a waiter only ever wakes up after the
         # holder has left unlock() completely)
         sc['eager'] = bool(t.chance(0.6))
+        # threads can also be switched between two statements of compact.py (line events), not only at system calls
+        sc['linepreempt'] = t.pick([None, 40, 300, 2000]) if sc['threads'] else None
     return sc
 
 
@@ -573,6 +575,8 @@ def _run_conc(sc, tape, b, name, probes):
     with w:
         w.fs.buffer_size = sc['bufsize']
         server = w.new_proc('server') if sc.get('threads') else None
+        if sc.get('linepreempt'):
+            sched.enable_line_preemption(['mapproxy/cache/compact.py'], sc['linepreempt'])
         for pi, ops in enumerate(sc['procs']):
             sched.spawn(proc_fn(pi, ops), 'w%d' % pi, server or w.new_proc('p%d' % pi))
         outcome = w.run_tasks()
@@ -623,6 +627,8 @@ def _run_conc(sc, tape, b, name, probes):
                 else:
                     raise
     probes['overlapping_bundle_writers'] = overlap[0]
+    if sched.line_yields:
+        probes['thread_switches_between_statements'] = sched.line_yields
     probes.update(w.fs.probes)
     return {'violation': v, 'digest': C.digest_of('conc', sc['version'], sc['procs'], sched.log),
             'nontrivial': overlap[0] > 0, 'steps': sched.steps, 'sim_time': w.clock.now - 1.7e9,
